@@ -13,21 +13,21 @@ blank; the namespace prefix may be given, omitted, aliased (`T:`) or written in 
 the rest is case-sensitive except that a lower-case first letter also finds the title stored
 with that letter upper-cased (exact spelling wins).
 
-Two readings of "plus redirects from or to a marked template" are computed:
+The closure ("full"): the least set that contains every flagged template (and every template already
+marked when the analysis starts) and is closed under all three rules of the statement at once:
+includes a marked template -> marked; redirect to a marked template -> marked; target of a marked
+redirect -> marked.  A redirect page points at the template that the page store resolves its stored
+target title to (same title rules).  The marked set must EQUAL this closure.
 
-    two_phase : M0 = least fixpoint of {flagged} + {includes a member};  result = M0
-                + redirect pages whose target is in M0 + targets of redirect pages in M0 (one hop)
-    full      : least set closed under all three rules at once
-
-two_phase <= full always.  A result R is accepted iff two_phase <= R <= full.
+For naming a disagreement the one-hop reading is also computed (two_phase: inclusion fixpoint M0, then
+redirect sources of M0 and targets of redirect pages in M0, once); templates of the closure beyond it are
+labelled by the rule that derives them ("beyond": includer / redirect of a template that is itself only
+marked through a redirect).
 
 Stores with a history.  A page may carry "p": 1 (stored with need_pre_expand=True up front), and an
 analysis may run on a store that an earlier analysis already marked (`before` = titles marked when the
-analysis starts).  Marks are monotone, and the closure is the closure of the CURRENT store:
-
-    lower = two_phase(flagged)  +  before          (every derivation from a flagged template, whatever
-                                                   was marked earlier; nothing is ever unmarked)
-    upper = joint least fixpoint seeded with flagged + before
+analysis starts).  Marks are monotone (nothing is ever unmarked) and the closure is the closure of the
+CURRENT store seeded with flagged + before.
 
 A *case* is {"mode": "readd" | "grow", "rounds": [graph, ...]}: "readd" = every round stores the same
 titles again (add_page overwrites and resets the mark) and analyses; "grow" = every round ADDS the
@@ -105,11 +105,24 @@ def closure(graph: dict, before=()) -> dict:
                 if k != "canonical":
                     noncanon += 1
         inc[p["t"]] = s
-    redirect = {p["t"]: p["r"] for p in pages if p["r"] is not None}
+    # a redirect page points at the template that the page store resolves its target title to
+    # (same title rules as for used names); None = no such template
+    redirect = {}
+    redirect_raw = {}
+    spelled_redirects = 0
+    for p in pages:
+        if p["r"] is not None:
+            redirect_raw[p["t"]] = p["r"]
+            redirect[p["t"]] = resolve(p["r"], titles)
+            if redirect[p["t"]] is not None and redirect[p["t"]] != p["r"]:
+                spelled_redirects += 1
 
-    # phase 1: least fixpoint, breadth first so that depth = length of the shortest inclusion chain
-    depth = {t: 0 for t in flagged}
-    frontier = set(flagged)
+    # phase 1: least fixpoint of the inclusion rule alone, seeded with everything that is marked by decree
+    # (flagged by the classifier, or already marked when the analysis starts); breadth first so that
+    # depth = length of the shortest inclusion chain
+    seeds = flagged | before
+    depth = {t: 0 for t in seeds}
+    frontier = set(seeds)
     d = 0
     while frontier:
         d += 1
@@ -122,41 +135,52 @@ def closure(graph: dict, before=()) -> dict:
         frontier = nxt
     m0 = set(depth)
     src = {s for s, t in redirect.items() if t in m0}
-    tgt = {t for s, t in redirect.items() if s in m0 and t in titles}
+    tgt = {t for s, t in redirect.items() if s in m0 and t is not None}
     two = m0 | src | tgt
 
-    full = set(flagged) | before
-    changed = True
-    while changed:
-        changed = False
-        for t, s in inc.items():
-            if t not in full and s & full:
-                full.add(t)
-                changed = True
+    # the closure the statement asks for: least set closed under all three rules; pages beyond the one-hop
+    # reading are labelled with the (synchronous) round and the rule that derives them
+    full = set(two)
+    beyond = {}
+    lay = 0
+    while True:
+        lay += 1
+        new_inc = {t for t, s in inc.items() if t not in full and s & full}
+        new_red = set()
         for s, t in redirect.items():
+            if t is None:
+                continue
             if t in full and s not in full:
-                full.add(s)
-                changed = True
-            if s in full and t in titles and t not in full:
-                full.add(t)
-                changed = True
+                new_red.add(s)
+            if s in full and t not in full:
+                new_red.add(t)
+        if not new_inc and not new_red:
+            break
+        for t in new_inc:
+            beyond[t] = (lay, "inclusion")
+        for t in new_red - new_inc:
+            beyond[t] = (lay, "redirect")
+        full |= new_inc | new_red
 
     why = {}
-    for t in two:
+    for t in full:
         if t in flagged:
             why[t] = "flagged-template"
+        elif t in before:
+            why[t] = "already-marked-before-analysis"
         elif t in m0:
             why[t] = "includer-of-marked"
         elif t in src:
             why[t] = "redirect-source"
-        else:
+        elif t in tgt:
             why[t] = "redirect-target"
-    for t in before - two:
-        why[t] = "already-marked-before-analysis"
-    derived = set(two)
-    two = two | before
-    return {"before": before, "premarked": premarked, "derived": derived, "titles": titles, "flagged": flagged, "inc": inc, "redirect": redirect, "m0": m0,
-            "depth": depth, "two_phase": two, "full": full, "why": why, "src": src - m0, "tgt": tgt - m0,
+        elif beyond[t][1] == "inclusion":
+            why[t] = "includer-of-template-marked-via-redirect"
+        else:
+            why[t] = "redirect-of-template-marked-via-redirect"
+    return {"before": before, "premarked": premarked, "titles": titles, "flagged": flagged, "inc": inc,
+            "redirect": redirect, "redirect_raw": redirect_raw, "spelled_redirects": spelled_redirects, "m0": m0,
+            "depth": depth, "two_phase": two, "full": full, "beyond": beyond, "why": why, "src": src - m0, "tgt": tgt - m0,
             "noncanonical_edges": noncanon, "unresolved_names": unresolved, "spelling": classes}
 
 
@@ -206,6 +230,28 @@ def canonicalise_case(case: dict) -> dict:
         if "mode" in case:
             out["mode"] = case["mode"]
         out["rounds"] = [canonicalise(r) for r in case["rounds"]]
+    return out
+
+
+def canonicalise_redirects_case(case: dict) -> dict:
+    """Same history, every redirect target that resolves rewritten to the stored title of its target."""
+    grow = case.get("mode") == "grow"
+    allt = {p["t"] for r in case["rounds"] for p in r["pages"]}
+    rounds = []
+    for r in case["rounds"]:
+        titles = allt if grow else {p["t"] for p in r["pages"]}
+        pages = []
+        for p in r["pages"]:
+            q = dict(p)
+            if p["r"] is not None:
+                t = resolve(p["r"], titles)
+                if t is not None:
+                    q["r"] = t
+            pages.append(q)
+        rounds.append({"pages": pages})
+    out = {"rounds": rounds}
+    if "mode" in case:
+        out["mode"] = case["mode"]
     return out
 
 
